@@ -153,12 +153,46 @@ fn case_direct(t: &mut Tape, ctx: &CaseCtx) -> CaseResult {
             Err((sig, msg)) => return Err(Failure::new(sig, format!("{msg} [configured {}; wire {uri}]", url.text), case)),
         }
     }
+    // the same handler then serves a client configured with a related service URL (a prefix, a sibling, an extension of
+    // the first): nothing of the earlier URL may leak into the later request
+    let mut second_url = false;
+    if t.chance(1, 3) {
+        let p = &url.parts;
+        let base = format!("{}://{}", p.scheme, p.authority);
+        let text2 = match t.choose(4) {
+            0 => format!("{base}{}", p.path),                                                                  // query dropped
+            1 => format!("{base}{}", p.path.rsplit_once('/').map(|(a, _)| a).unwrap_or("")),                   // last segment dropped
+            2 => format!("{base}/"),                                                                           // root
+            _ => format!("{base}{}{}x", p.path, if p.path.ends_with('/') { "" } else { "/" }),                 // one segment more
+        };
+        if let (Some(parts2), true) = (crate::urlref::split_url(&text2), text2.parse::<http::Uri>().is_ok()) {
+            let config2 = Config { service_url: text2.clone(), ..config.clone() };
+            let rb2 = RequestBuilder::new(&config2, &params).add_update_check(&apps[0]).session_id(GUID::new()).request_id(GUID::new());
+            if let Ok((req, Some(meta))) = rb2.build(Some(&handler)) {
+                let (parts, body) = req.into_parts();
+                let body = block_on(hyper::body::to_bytes(body)).unwrap().to_vec();
+                let uri = parts.uri.to_string();
+                match check_decorated(&parts2, &uri, &body, &meta, keys[0].0) {
+                    Ok(n) => {
+                        if nonces.contains(&n) {
+                            return Err(Failure::new("nonce-reused", format!("nonce {} used twice (second configuration)", hex::encode(n)), case));
+                        }
+                    }
+                    Err((sig, msg)) => return Err(Failure::new(sig, format!("{msg} [same handler, second configuration {text2} after {}; wire {uri}]", url.text), case)),
+                }
+                second_url = true;
+            }
+        }
+    }
     let nontrivial = url.parts.query.as_deref().map(|q| !q.is_empty()).unwrap_or(false)
         || url.classes.iter().any(|c| ["ipv6", "ipv6_zone", "port", "path_absent"].contains(c));
     let mut classes = url.classes.clone();
     classes.push("direct");
     if keys.len() > 1 {
         classes.push("historical_keys");
+    }
+    if second_url {
+        classes.push("handler_shared_with_a_second_service_url");
     }
     Ok(CaseReport { key: hash_of(&case.to_string()), nontrivial, classes, sample: ctx.want_sample.then(|| case.clone()), ambiguous: false })
 }
